@@ -47,10 +47,13 @@ pub struct Layout {
     pub extra_fat_sectors: usize,
     /// free mini sectors left in the mini stream
     pub free_mini_sectors: usize,
+    /// bytes of the 64-byte name field after the terminating NUL are stale non-zero bytes instead of zeros
+    /// (MS-CFB only requires the terminator; the name length field delimits the name)
+    pub name_garbage: bool,
 }
 impl Default for Layout {
     fn default() -> Self {
-        Layout { v4: false, order: Order::Sequential, mini_order: Order::Sequential, unused_dir_entries: 0, dir_reversed: false, free_sectors: 0, extra_fat_sectors: 0, free_mini_sectors: 0 }
+        Layout { v4: false, order: Order::Sequential, mini_order: Order::Sequential, unused_dir_entries: 0, dir_reversed: false, free_sectors: 0, extra_fat_sectors: 0, free_mini_sectors: 0, name_garbage: false }
     }
 }
 
@@ -233,7 +236,9 @@ pub fn write(entries: &[Entry], lay: &Layout) -> Vec<u8> {
         let mut e = vec![0u8; 128];
         let mut n: Vec<u8> = name.encode_utf16().flat_map(|u| u.to_le_bytes()).collect();
         let nl = if typ == 0 { 0 } else { n.len() + 2 };
+        let used = n.len() + 2;
         n.resize(64, 0);
+        if lay.name_garbage && typ != 0 { for (k, b) in n.iter_mut().enumerate().skip(used) { *b = if k % 2 == 0 { b'A' + (k % 23) as u8 } else { 0 }; } }
         e[..64].copy_from_slice(&n);
         e[64..66].copy_from_slice(&(nl as u16).to_le_bytes());
         e[66] = typ;
